@@ -50,6 +50,17 @@ pub fn base_alphabet(which: Which) -> Vec<u8> {
     }
 }
 
+/// reduced alphabet for the deepest string sweep of the event decoder
+pub fn structural_alphabet() -> Vec<u8> {
+    let mut v: Vec<u8> = vec![0x1b];
+    v.extend(b"[]OP_<?;:$+~\\");
+    v.push(0x07);
+    v.extend(b"019");
+    v.extend(b"ARMmutycx");
+    v.extend([0xC3, 0xA9, 0x80]);
+    v
+}
+
 /// The alphabet actually used: the base alphabet plus one representative of every global byte
 /// class of the production DFA that is not just "a literal key reachable only from the start
 /// or ESC state" and has no representative yet (so a grammar change cannot silently escape).
@@ -354,6 +365,8 @@ fn params(tier: Tier) -> Params {
             tok_len: 7,
         },
         Tier::Thorough => Params {
+            // length 5 for the event decoder runs over the 43-symbol base alphabet only (the
+            // automatically added class representatives are covered up to length 4)
             len_event: 5,
             len_command: 6,
             len_utf8: 5,
@@ -534,12 +547,16 @@ pub fn worker(ctx: &Ctx, mut wc: WorkerCtx, _extra: &[String]) {
     let mut outcomes: HashSet<u64> = HashSet::new();
 
     // ---- space A: strings over the alphabet, all partitions
-    for (which, maxlen) in [
-        (Which::Event, p.len_event),
-        (Which::Command, p.len_command),
-        (Which::Utf8, p.len_utf8),
+    for (which, maxlen, full) in [
+        (Which::Event, p.len_event.min(4), true),
+        (Which::Event, p.len_event, false),
+        (Which::Command, p.len_command, true),
+        (Which::Utf8, p.len_utf8, true),
     ] {
-        let (alpha, _, _) = alphabet(which);
+        if !full && maxlen <= 4 {
+            continue;
+        }
+        let alpha = if full { alphabet(which).0 } else { structural_alphabet() };
         let parts_by_len: Vec<Vec<Vec<usize>>> = (0..=maxlen).map(all_partitions).collect();
         for first in 0..alpha.len() {
             unit += 1;
@@ -553,6 +570,9 @@ pub fn worker(ctx: &Ctx, mut wc: WorkerCtx, _extra: &[String]) {
                 case += 1;
                 if case <= resume {
                     return;
+                }
+                if !full && s.len() < maxlen {
+                    return; // shorter strings are covered by the full-alphabet sweep
                 }
                 wc.begin_case(case, &descriptor(0, which, s, &[]));
                 let parts = &parts_by_len[s.len()];
@@ -831,7 +851,7 @@ pub fn run(ctx: &Ctx) -> Result<Report, String> {
         .set(
             "bounds",
             json!({
-                "A_len_event": p.len_event, "A_len_command": p.len_command, "A_len_utf8": p.len_utf8,
+                "A_len_event": p.len_event.min(4), "A_len_event_structural_alphabet": p.len_event, "A_len_command": p.len_command, "A_len_utf8": p.len_utf8,
                 "S_buffer_bound_event": p.buf_bound, "S_buffer_bound_command": p.buf_bound + 1, "S_continuation_len": p.cont_len,
                 "T_pattern_set_size": p.set_size, "T_input_len": p.tok_len, "T_pool": pattern_pool().iter().map(|x| x.0).collect::<Vec<_>>(),
             }),
